@@ -27,9 +27,11 @@ FAULT_KINDS = {
     'write': ['ENOSPC:0', 'ENOSPC:half', 'EIO:half', 'crash_before', 'crash_after'],
     'close_w': ['EIO:flushed', 'EIO:lost', 'crash'],
     'stdout': ['EPIPE'],
+    'os_rename': ['EIO', 'EACCES', 'crash_before', 'crash_after'],       # os.rename / os.replace onto or away from a world path
+    'os_remove': ['EIO', 'EACCES', 'crash_before', 'crash_after'],       # os.remove / os.unlink
 }
 INPUT_SIDE = {'scandir', 'open_r', 'read', 'open_w'}          # nothing of the target has been modified yet
-WRITE_PHASE = {'opened_w', 'write', 'close_w'}                # the real open-for-write has happened
+WRITE_PHASE = {'opened_w', 'write', 'close_w', 'os_rename', 'os_remove'}                # the real open-for-write has happened
 
 
 class WorldTooHeavy(BaseException):
@@ -551,14 +553,29 @@ class World(object):
         def wrap_mod(name, nargs):
             real = getattr(os, name)
             self._saved['os.' + name] = real
+            fault_cls = {'rename': 'os_rename', 'replace': 'os_rename', 'remove': 'os_remove', 'unlink': 'os_remove'}.get(name)
 
             def wrapper(*a, **k):
+                inside = [x for x in a[:nargs] if not isinstance(x, int) and w.rel(x) is not None]
+                f = None
+                if fault_cls and inside:
+                    # the entry that is replaced / removed is the one the fault is about (the destination of a rename)
+                    target = a[nargs - 1] if name in ('rename', 'replace') else a[0]
+                    f = w.event(fault_cls, target, op=name)
+                    if f is not None:
+                        if f['kind'] == 'crash_before':
+                            w.crash()
+                        if f['kind'] in ERRNO:
+                            w.raise_errno(f['kind'], target)
                 for x in a[:nargs]:
                     if not isinstance(x, int) and w.rel(x) is not None:
                         w.modlog('os.' + name, x)
                     elif not isinstance(x, int) and name != 'open':
                         w.outside.append(w.norm(x))
-                return real(*a, **k)
+                r = real(*a, **k)
+                if f is not None and f['kind'] == 'crash_after':
+                    w.crash()
+                return r
             wrapper.__name__ = name
             setattr(os, name, wrapper)
 
